@@ -485,6 +485,76 @@ class SumRegistry(object):
 SUMS = SumRegistry()
 
 
+class ExtremumAtom(object):
+    def __init__(self, const, n, bound, body, which):
+        self.const, self.n, self.bound, self.body, self.which = const, n, bound, body, which
+
+    def at(self, j):
+        return z3.substitute(self.body, (self.bound, j))
+
+
+class ExtremumRegistry(object):
+    """min / max of a 1-d family body(J), 0 <= J < n, named canonically (like sum atoms):
+    the same array gives the same constant wherever it is reduced."""
+
+    def __init__(self):
+        self.atoms = {}
+        self.by_const = {}
+
+    def atom(self, n, jvar, body, which):
+        J = z3.Int('J!')
+        cbody = z3.simplify(z3.substitute(body, (jvar, J)))
+        key = (which, n.sexpr(), cbody.sexpr())
+        a = self.atoms.get(key)
+        if a is None:
+            name = "%s[%d]" % (which.upper(), len(self.atoms))
+            const = z3.Real(name) if z3.is_real(cbody) else z3.Int(name)
+            a = ExtremumAtom(const, n, J, cbody, which)
+            self.atoms[key] = a
+            self.by_const[const.get_id()] = a
+        return a.const
+
+    def atoms_in(self, terms):
+        seen, out = set(), []
+        stack, visited = list(terms), set()
+        while stack:
+            t = stack.pop()
+            if t.get_id() in visited:
+                continue
+            visited.add(t.get_id())
+            a = self.by_const.get(t.get_id())
+            if a is not None:
+                if a.const.get_id() not in seen:
+                    seen.add(a.const.get_id())
+                    out.append(a)
+                    stack.append(a.body)
+                continue
+            sa = SUMS.by_const.get(t.get_id())
+            if sa is not None:
+                stack.append(sa.body)
+                continue
+            stack.extend(t.children())
+        return out
+
+
+EXTREMA = ExtremumRegistry()
+
+RESET_HOOKS = []
+
+
+def reset_globals():
+    """Make every function verification independent of what the process verified before
+    (names of sum atoms / fresh constants influence solver heuristics)."""
+    global _counter
+    _counter = itertools.count()
+    SUMS.atoms.clear()
+    SUMS.by_const.clear()
+    EXTREMA.atoms.clear()
+    EXTREMA.by_const.clear()
+    for h in RESET_HOOKS:
+        h()
+
+
 def mentions(t, v):
     vid = v.get_id()
     stack, visited = [t], set()
